@@ -133,6 +133,25 @@ def mp4_opaque_items(d):
     return nd
 
 
+def mp4_two_free_before(d):
+    """[.., ilst, free] -> [.., free(100), free(rest), ilst]: two padding atoms in front of ilst (same sizes overall)"""
+    atoms = W.mp4_atoms(d)
+    ilst = free = None
+    for a in W.mp4_flat(atoms):
+        if a["path"] == (b"moov", b"udta", b"meta", b"ilst"):
+            ilst = a
+        elif ilst is not None and free is None and a["name"] == b"free" and a["off"] == ilst["off"] + ilst["size"]:
+            free = a
+    if ilst is None or free is None or free["size"] < 200:
+        return None
+    il = d[ilst["off"]:ilst["off"] + ilst["size"]]
+    f1 = struct.pack(">I", 100) + b"free" + b"\x00" * 92
+    f2 = struct.pack(">I", free["size"] - 100) + b"free" + b"\x00" * (free["size"] - 108)
+    nd = d[:ilst["off"]] + f1 + f2 + il + d[free["off"] + free["size"]:]
+    assert len(nd) == len(d)
+    return nd
+
+
 def id3_unknown_frames(d):
     """a v2.4 tag with unknown frames (two sharing one id) in front of the audio of an ID3-prefixed file"""
     body = d
@@ -144,6 +163,22 @@ def id3_unknown_frames(d):
     n = len(frames) + 40
     tag = b"ID3\x04\x00\x00" + bytes([(n >> 21) & 0x7F, (n >> 14) & 0x7F, (n >> 7) & 0x7F, n & 0x7F]) + frames + b"\x00" * 40
     return tag + body
+
+
+def idempotence_layouts(kind, base):
+    """layouts judged only for fixpoint behaviour (second save / second delete byte-identical): which of several free
+    atoms around ilst is 'the' tag padding is ambiguous, so the padding/foreign predicates make no claim there"""
+    out = []
+    if kind.family == "mp4":
+        for nm, dd in base:
+            try:
+                x = mp4_two_free_before(dd)
+            except Exception:
+                x = None
+            if x:
+                out.append(("synth-two-free-before-ilst+" + nm, x))
+                break
+    return out
 
 
 def extra_samples(kind, base):
